@@ -68,3 +68,27 @@ Theorem filter_history_uses_most_specific_prefix_of_latest_settings : forall d0 
   \/ (level_spec d0 h ns = latest_default d0 h /\ forall i, 1 <= i <= length ns -> latest h (firstn i ns) = None).
 Proof. exact level_spec_most_specific. Qed.
 Print Assumptions filter_history_uses_most_specific_prefix_of_latest_settings.
+
+(** a failure is never reported to the observer that raised (at any nesting depth of the error reporting) *)
+Theorem failure_never_reported_to_the_observer_that_raised : forall f os n o b,
+  In (Del o (Err b)) (publish f os (Ev n)) -> o <> b.
+Proof. exact never_reported_to_self. Qed.
+Print Assumptions failure_never_reported_to_the_observer_that_raised.
+
+(** EXTENSION beyond the property's quantifier — observers that add / remove observers of the publisher during a
+    dispatch.  LogPublisher.__call__ iterates `self._observers` live (no copy).  If observers only ADD observers,
+    the event reaches every observer of the final list exactly once in list order: first all that were listed
+    (the list only grows at its end), then the ones added meanwhile. *)
+Theorem extension_adds_during_dispatch_keep_once_in_order : forall tab n os os' ds br f,
+  adds_only tab -> dispatch_live tab f 0 os n = (os', ds, br, false) ->
+  map dlv_obs ds = os' /\ exists ext, os' = os ++ ext.
+Proof. exact dispatch_live_adds_all. Qed.
+Print Assumptions extension_adds_during_dispatch_keep_once_in_order.
+
+(** ... whereas a removal during the dispatch makes the iterator skip the next observer: a listed observer that
+    is never removed does not get the event (stated, not claimed as a defect: outside the quantifier) *)
+Theorem extension_removal_during_dispatch_skips_an_observer :
+  dispatch_live [mkL false false (ORemove 0); mkL false false ONone; mkL false false ONone] 10 0 [0; 1; 2] 7
+  = ([1; 2], [Del 0 (Ev 7); Del 2 (Ev 7)], [], false).
+Proof. exact live_removal_skips. Qed.
+Print Assumptions extension_removal_during_dispatch_skips_an_observer.
